@@ -75,7 +75,7 @@ theorem Inv.mark {p : Pool} (hi : Inv p) (o : Obj) (f r : Bool) : Inv (mark p o 
     · rename_i rg hreg
       have hr : regL p = rg := regL_of_some hreg
       -- the pool the new entry is written into: only the Go finaliser table may differ from p
-      generalize hp1 : (if (regLookup rg o.key).isNone = true then register p o else p) = p1
+      generalize hp1 : (if (regLookup rg o.key).isNone = true then registerNew p o else p) = p1
       have hc : p1.reg = p.reg ∧ p1.last = p.last ∧ p1.pf = p.pf ∧ p1.pr = p.pr ∧ p1.tr = p.tr := by
         rw [← hp1]; split <;> simp
       obtain ⟨_, _, hpf, hpr, htr⟩ := hc
